@@ -58,7 +58,7 @@ def run_check(tier):
                         "int -> float targets are prescribed for |n| < 2^24 (exactly representable); larger magnitudes into float targets are left open",
                         "CSV cells carry the text the specification renders for the XML element and are judged by the same prescription; direct Convert::To between arithmetic types is exercised through the MsgPack reader, which funnels every integer format through ConvertByPolicy"]
     quick = tier == "quick"
-    rng = {"NumNeg": "130" if quick else "32770", "NumPos": "260" if quick else "65540"}
+    rng = {"NumNeg": "130" if quick else "300", "NumPos": "260" if quick else "600"}
     total = 0
     keys = set()
     for arch, widths, media in (("msgpack", "{0, 3, 5}" if quick else "{0, 1, 2, 3, 4, 5}", ["mem", "sstream"]),
@@ -79,6 +79,22 @@ def run_check(tier):
         s = sc[len(sc) // 3]
         chk.sample({"archive": arch, "document": s["doc"][:40], "script": s["root"], "policies": s["pol"], "expected": s["exp"]})
         del sc
+    if not quick:
+        # exhaustive 16-bit sweep: every integer -32770..65540 x every arithmetic target x the four policy combinations, in the root
+        # position of a MessagePack document (every integer format funnels through the same ConvertByPolicy as the other archives);
+        # generated and replayed in slices so that no TLC run holds more than about a million scenarios
+        for base, neg, pos in ((0, 32770, 0), (0, 0, 16000), (16000, 0, 17000), (33000, 0, 17000), (50000, 0, 15540)):
+            sc = mp.gen("MC_LoadScript", {"Mode": '"numeric"', "MaxOps": 0, "Widths": "{0}", "Pads": "{0}", "NumBase": str(base), "NumNeg": str(neg),
+                                          "NumPos": str(pos), "NumLeafOnly": "TRUE"},
+                        ["Export"], "c04-sweep-%d" % (base - neg), chk, timeout=3000, xmx="10g")
+            # the slice boundaries: keep only the integers of this slice (limits / floats / booleans were covered above)
+            sc = [s for s in sc if s["doc"] and s["root"]["k"] == "leaf"]
+            for b in range(0, len(sc), 200000):
+                pairs = mp.replay(sc[b:b + 200000], ["mem"], 8, "sw")
+                mp.judge(chk, pairs, "msgpack numeric sweep")
+                total += len(pairs)
+            chk.cov.setdefault("sweep_slices", []).append({"from": base - neg, "to": base + pos, "scenarios": len(sc)})
+            del sc
     chk.add_cases(total, distinct_keys=keys, validated=total)
     return chk.finish()
 
